@@ -259,6 +259,46 @@ func genC03(g *gen, c *sim.Case, tier string) {
 		g.patterns = []string{"*", "a*", "/a", "a", "/*", "b"}
 		c.Knobs["slash_keys"] = 1
 	}
+	if g.patterns == nil && r.Chance(1, 30) {
+		// a big population written and read in big batches (results must stay complete and aligned)
+		pop := sim.Pick(r, 40, 300, 1200)
+		c.Knobs["many_keys"] = int64(pop)
+		c.Sched = sched(r, time.Second, 400000)
+		rng := func() string {
+			a := r.Intn(pop)
+			b := a + 1 + r.Intn(pop-a)
+			return fmt.Sprintf("#k:%d:%d:%d", a, b, sim.Pick(r, 1, 1, 2, 7))
+		}
+		vals := func(ks string) string {
+			var a, b, st int
+			fmt.Sscanf(ks, "#k:%d:%d:%d", &a, &b, &st)
+			g.nval += pop
+			return fmt.Sprintf("#x:%d:%d:%d", g.nval+a, g.nval+b, st)
+		}
+		all := fmt.Sprintf("#k:0:%d:1", pop)
+		task.Ops = append(task.Ops, sim.Op{K: "putmany", S: all, V: vals(all), D: sim.Pick(r, int64(0), int64(0), int64(time.Hour))})
+		pats := []string{"*", "k0*", "k*1", "k00?0", "k[01]*5", "k0000", "nothing*"}
+		keys = []string{"k0000", "k0001", fmt.Sprintf("k%04d", pop-1), fmt.Sprintf("k%04d", pop/2), fmt.Sprintf("k%04d", pop)}
+		for i := 0; i < n; i++ {
+			switch r.Intn(6) {
+			case 0:
+				task.Ops = append(task.Ops, sim.Op{K: "getmany", S: rng() + "," + keys[r.Intn(len(keys))]})
+			case 1:
+				ks := rng()
+				task.Ops = append(task.Ops, sim.Op{K: "putmany", S: ks, V: vals(ks), D: sim.Pick(r, int64(0), int64(0), int64(time.Hour))})
+			case 2, 3:
+				task.Ops = append(task.Ops, sim.Op{K: "list", S: pats[r.Intn(len(pats))], N: int64(sim.Pick(r, 0, 0, 1, 2, 3))})
+			default:
+				op := g.seqOp(keys, false)
+				if op.K == "list" {
+					op.S = pats[r.Intn(len(pats))]
+				}
+				task.Ops = append(task.Ops, op)
+			}
+		}
+		c.Tasks = []sim.Task{task}
+		return
+	}
 	for i := 0; i < n; i++ {
 		task.Ops = append(task.Ops, g.seqOp(keys, false))
 	}
@@ -296,8 +336,15 @@ func (g *gen) seqOp(keys []string, withShortExpiry bool) sim.Op {
 	case 8:
 		return sim.Op{K: "del", S: k}
 	case 9:
+		if r.Chance(1, 25) {
+			// a batch computed by the caller that happens to be empty
+			return sim.Op{K: "getmany", S: ""}
+		}
 		return sim.Op{K: "getmany", S: strings.Join(pickKeys(r, keys), ",")}
 	case 10, 11:
+		if r.Chance(1, 40) {
+			return sim.Op{K: "putmany", S: "", V: ""}
+		}
 		ks := pickKeys(r, keys)
 		if r.Chance(1, 2) {
 			ks = uniq(ks)
